@@ -405,13 +405,34 @@ pub fn ops_strategy(n_peers: u8, mix: Mix, max_fragments: usize) -> BoxedStrateg
         ]
     })
     .boxed();
+    // somebody on the path copies an honest peer's first (undecryptable) packet and then its handshake
+    // packet and presents both from his own address - the copy of the first packet even before the
+    // original arrives
+    let copied_knock = (0u8..n_peers.max(1), 0u8..3, any::<bool>(), any::<bool>()).prop_map(|(p, z, with_record, copy_first)| {
+        let peer = 1 + p;
+        let mut v = vec![Op::DeliverAll, Op::Submit { from: peer, to: 0, body: Body::Ping, with_record }];
+        // (the peer's packet is the newest logged datagram: the copy reaches V before the original)
+        v.push(Op::Replay { d: 65535, from: AddrSel::Attacker(z) });
+        if copy_first {
+            v.push(Op::AnswerWru { node: 0, sel: 0, know: Know::Current });
+        }
+        v.push(Op::Deliver(0));
+        v.push(Op::AnswerWru { node: 0, sel: 0, know: Know::Current });
+        v.push(Op::AnswerWru { node: 0, sel: 0, know: Know::Current });
+        // the WHOAREYOU for the peer is the oldest datagram in the pool; the peer answers with its handshake
+        v.push(Op::Deliver(0));
+        v.push(Op::ReplayHandshake { nth: 0, from: AddrSel::Attacker(z) });
+        v.push(Op::DeliverAll);
+        v
+    })
+    .boxed();
     // requests to more addresses at once than any table of awaited addresses could be expected to hold
     let crowd = (1030u16..1300, prop_oneof![Just(Dt::Ms1), Just(Dt::TimeoutFrac40)]).prop_map(|(n, dt)| vec![Op::DeliverAll, Op::SubmitToMany { n }, Op::Advance(dt)]).boxed();
     let frag = match mix {
-        Mix::Identity => prop_oneof![18 => single, 12 => attack, 2 => spoof_race, 1 => early_replay, 2 => replay_accepted].boxed(),
+        Mix::Identity => prop_oneof![18 => single, 12 => attack, 2 => spoof_race, 1 => early_replay, 2 => replay_accepted, 1 => copied_knock.clone()].boxed(),
         Mix::Exemptions => prop_oneof![2400 => single, 400 => attack, 1 => crowd].boxed(),
-        Mix::Tamper => prop_oneof![30 => single, 6 => exchange, 1 => spoof_race, 1 => old_key_fallback, 1 => early_replay.clone()].boxed(),
-        Mix::Replay => prop_oneof![30 => single, 6 => exchange, 1 => late_handshake, 1 => early_replay, 2 => replay_accepted, 1 => second_wru_after_eviction].boxed(),
+        Mix::Tamper => prop_oneof![30 => single, 6 => exchange, 1 => spoof_race, 1 => old_key_fallback, 1 => early_replay.clone(), 1 => copied_knock.clone()].boxed(),
+        Mix::Replay => prop_oneof![30 => single, 6 => exchange, 1 => late_handshake, 1 => early_replay, 2 => replay_accepted, 1 => second_wru_after_eviction, 1 => copied_knock].boxed(),
         _ => prop_oneof![60 => single, 1 => burst_fail, 2 => slow_challenge].boxed(),
     };
     proptest::collection::vec(frag, 1..max_fragments)
